@@ -31,7 +31,8 @@ AK = ['metric', 'context_patient', 'context_location', 'descriptor', 'metric_ent
 RC = ['unknown_state_handle', 'wrong_state_type', 'get_state_twice', 'unknown_descriptor', 'add_existing_descriptor',
       'mk_context_state_existing_handle', 'mk_context_state_non_context_descriptor', 'get_state_without_descriptor',
       'remove_then_get_state']
-CF = ['pre_commit_handler_raises', 'add_state_duplicate_handle', 'entity_delete_context_state']
+CF = ['pre_commit_handler_raises', 'add_state_duplicate_handle', 'entity_delete_context_state',
+      'entity_delete_context_state_in_descriptor_transaction']
 RCC = ['metric_write_entities_wrong_type', 'metric_write_entities_multi_state', 'alert_write_entities_wrong_type',
        'context_write_entity_unknown_handle', 'descriptor_write_entities_already_written', 'mk_context_state_existing_handle',
        'get_context_state_unknown_handle']
